@@ -203,6 +203,8 @@ class Machine:
     def _color_matrix(self) -> None:
         color = self._reg.get_color()
         mat = self._reg.matrix
+        if mat is None:
+            return
         rect = Rect(
             self._reg.first_row, self._reg.last_row,
             self._reg.first_column, self._reg.last_column)
@@ -392,18 +394,18 @@ class Machine:
     def _matrix(self, light_set) -> None:
         name = self._reg.name
         light = light_set.get_light(name)
+        # Without a matrix light there is nothing to stage into, whatever the
+        # rows and columns are.
+        self._reg.matrix = None
         if light is None:
             Machine._report_missing(name)
-            height = width = 255
         elif not isinstance(light, MatrixLight):
             logging.error(
                 'Light "{}" is not matrix type (Candle, Tube, etc.)'
                 .format(name))
-            height = width = 255
         else:
-            height = light.get_height()
-            width = light.get_width()
-        self._reg.matrix = ColorMatrix.new_from_constant(height, width, None)
+            self._reg.matrix = ColorMatrix.new_from_constant(
+                light.get_height(), light.get_width(), None)
 
     def _nop(self) -> None: pass
 
